@@ -113,6 +113,23 @@ theorem C12_fastq_scores_rejected (f : Fastq) (id seq : Str) (qs : List Int)
     · cases hset
     · split at hset <;> cases hset
 
+/-- refusals of the two writers at the edge of the hypotheses above: a line width of 0 and an empty
+FASTQ sequence (or a score list of another length) are rejected, the file object stays as it is. -/
+theorem C12_width_zero_and_empty_rejected (f : Fasta) (q : Fastq) (h s : Str) (qs : List Int) :
+    (f.cpl = 0 → fastaSet f h s = .error .valueError) ∧
+    (fastqSet q h [] qs = .error .valueError) ∧
+    (s.length ≠ qs.length → fastqSet q h s qs = .error .valueError) ∧
+    (q.cpl = some 0 → ∀ q', fastqSet q h s qs ≠ .ok q') := by
+  refine ⟨fun h0 => by simp [fastaSet, h0], ?_, fun hl => by simp [fastqSet, hl], ?_⟩
+  · unfold fastqSet
+    by_cases hl : ([] : Str).length ≠ qs.length <;> simp
+  · intro h0 q' hset
+    unfold fastqSet at hset
+    simp only [h0, if_true] at hset
+    split at hset
+    · cases hset
+    · split at hset <;> cases hset
+
 /-- **Edit consistency (FASTQ)**: after `__setitem__` / `__delitem__` the entry index equals a
 re-index of the text — also when the text held the same identifier twice. -/
 theorem C12_edit_consistent_fastq (f f' : Fastq) (id seq : Str) (qs : List Int)
@@ -209,38 +226,48 @@ theorem C12_gff_created_line_is_entry (e : GffEntry Str) (line : Str)
 
 
 
-/-- **ID-grouped locations** (`gff/convert.py`): the entries `set_annotation` writes for a list of
-features (one per location, same type and attributes) are grouped back by `get_annotation` into
-exactly these features — key, qualifiers and every location with its strand — provided each
-feature has a location, a feature with several locations has an `ID` (enforced by
-`set_annotation`) and consecutive features do not share an `ID`.  Any string type, any `ID` key. -/
-theorem C12_gff_grouping (fs : List (GFeat Str)) (hok : ∀ f ∈ fs, GFeatOk "ID".toList f)
-    (hids : GIdsOk "ID".toList fs) : gffGroup "ID".toList (fs.flatMap gffExpand) = fs :=
-  gff_grouping _ fs hok hids
+/-- **ID-grouped locations** (`gff/convert.py`): whatever the repaired `set_annotation` accepts
+(unique `ID`s; a feature with several locations has an `ID`) is grouped back by `get_annotation`
+into exactly the same features — key, qualifiers and every location with its strand.  The only
+remaining hypothesis is the class invariant "a `Feature` has a location". -/
+theorem C12_gff_grouping (fs : List (GFeat Str)) (es : List (GEnt Str))
+    (hacc : gffSetAnnotE "ID".toList fs = .ok es) (hl : ∀ f ∈ fs, f.locs ≠ []) :
+    gffGroup "ID".toList es = fs :=
+  gff_grouping_accepted _ fs es hacc hl
+
+/-- two features sharing an `ID` are refused (they would be merged on reading). -/
+theorem C12_gff_duplicate_id_rejected :
+    gffSetAnnotE "ID".toList
+      [⟨"gene".toList, [(1, 5, some false)], [("ID".toList, "x".toList)]⟩,
+       ⟨"CDS".toList, [(7, 9, some false)], [("ID".toList, "x".toList)]⟩] = .error .valueError := by decide
 
 /-! ## GenBankFile as a list of fields -/
 
 /-- **Edit consistency (GenBank).**  `GbWF g`: the lines are field blocks (header line in column 0,
 continuation lines empty or indented) closed by `//`, and `_field_pos` holds their running
 positions.  The empty file and every text of that shape read from disk are well-formed; a
-well-formed object has `_field_pos = _find_field_indices(lines)`; and `__setitem__`, `insert`,
-`append`, `__delitem__`, `set_field` — which shift positions instead of re-indexing — keep it
-well-formed, for names that fit the 12-column name field (`GbNameOk`) and FEATURES/ORIGIN content
-made of continuation lines (`GbContentOk`).  Hence index = reindex(lines) after any edit sequence. -/
+well-formed object has `_field_pos = _find_field_indices(lines)`; and every **successful**
+`__setitem__`, `insert`, `append`, `__delitem__`, `set_field` — which shift positions instead of
+re-indexing — keeps it well-formed.  No hypothesis on names or content is left: what the invariant
+needs (name fits the 12-column name field, does not start with `//`; FEATURES/ORIGIN content is
+indented) is exactly what the repaired `_to_lines` refuses otherwise (`C12_genbank_to_lines_rejects`). -/
 theorem C12_edit_consistent_genbank (g g' : Gb) (i : Int) (name : Str) (content : List Str)
     (subs : List (Str × List Str)) (hw : GbWF g) :
     g.pos = gbFind g.lines ∧
     (gbDel g i = .ok g' → GbWF g') ∧
-    (GbNameOk name → GbContentOk name content →
-      (gbSet g i name content subs = .ok g' → GbWF g') ∧
-      (gbInsert g i name content subs = .ok g' → GbWF g') ∧
-      (gbAppend g name content subs = .ok g' → GbWF g')) ∧
-    (GbNameOk (upper name) → GbContentOk (upper name) content →
-      gbSetField g name content subs = .ok g' → GbWF g') :=
-  ⟨gbWF_inv g hw, gb_del_wf g g' i hw,
-   fun hn hc => ⟨gb_set_wf g g' i name content subs hw hn hc, gb_insert_wf g g' i name content subs hw hn hc,
-                 gb_append_wf g g' name content subs hw hn hc⟩,
-   fun hn hc => gb_setField_wf g g' name content subs hw hn hc⟩
+    (gbSet g i name content subs = .ok g' → GbWF g') ∧
+    (gbInsert g i name content subs = .ok g' → GbWF g') ∧
+    (gbAppend g name content subs = .ok g' → GbWF g') ∧
+    (gbSetField g name content subs = .ok g' → GbWF g') :=
+  ⟨gbWF_inv g hw, gb_del_wf g g' i hw, gb_set_wf g g' i name content subs hw,
+   gb_insert_wf g g' i name content subs hw, gb_append_wf g g' name content subs hw,
+   gb_setField_wf g g' name content subs hw⟩
+
+/-- `_to_lines` accepts only what can be read back: acceptance implies the name fits the name
+column and is not a terminator, and FEATURES/ORIGIN content consists of continuation lines. -/
+theorem C12_genbank_to_lines_rejects (name : Str) (content : List Str) (subs : List (Str × List Str))
+    (h : ¬ (GbNameOk name ∧ GbContentOk name content)) : ∀ ins, gbToLines name content subs ≠ .ok ins :=
+  fun ins hok => h (gbToLines_accepts name content subs ins hok).2
 
 theorem C12_genbank_wf_start :
     GbWF Gb.empty ∧ ∀ bs : List GbBlock, (∀ b ∈ bs, GbBlockOk b) → GbWF (gbRead (gbFlat bs ++ [gbTerm])) :=
@@ -262,7 +289,8 @@ theorem C12_qualifiers_roundtrip (loc : Str) (hloc : LocStrOk loc) (quals : List
     parseFeatVal (featValue loc quals) = .ok (loc, quals) :=
   qualifiers_roundtrip loc hloc quals hk hv hnd
 
-/-- what the format cannot express (the code has no escape for `"`): the value `a"b` is not
+/-- what the reader's syntax cannot express (no escape for `"`; the repaired writer therefore
+refuses such input, `C12_feature_rejects`): text holding the value `a"b` is not
 recovered (it comes back as `a` plus a spurious value-less key) — replayed on the real code by the
 corpus case `gbf_rt` with the same feature; likewise a key containing `=`. -/
 theorem C12_qualifiers_quote_inexpressible :
@@ -278,12 +306,22 @@ theorem C12_origin_roundtrip (start : Int) (seq : Str) (h : ∀ c ∈ lower seq,
     originSeq (printOrigin start seq) = lower seq ∧ originStart (printOrigin start seq) = .ok start :=
   ⟨origin_seq_roundtrip start seq h, origin_start_roundtrip start seq⟩
 
-/-- **Feature table round trip**: key column + location (`C12_loc_roundtrip`) + qualifiers for a
-list of features: `get_annotation (set_annotation fs) = fs`, order kept.  Keys fit the 15-character
-key column without blanks at the ends (`FeatKeyOk`); locations expressible; qualifiers as above. -/
-theorem C12_feature_roundtrip (fs : List GbFeat) (hk : ∀ f ∈ fs, FeatKeyOk f.key) (hf : ∀ f ∈ fs, GbFeatOk f) :
-    parseFeatures (printFeatures fs) = .ok fs :=
-  feature_roundtrip fs hk hf
+/-- **Feature table round trip**: whatever `set_annotation` accepts (`printFeaturesE`, the repaired
+writer checks key column and qualifier syntax) is read back by `get_annotation` as the same list
+of features, order kept: key column + location (`C12_loc_roundtrip`) + qualifiers.  The remaining
+hypotheses are invariants of the classes (`Feature` has a location, `Location.first ≤ last`, a
+`dict` has distinct keys) plus "the format can express the defect" (`Expressible`). -/
+theorem C12_feature_roundtrip (fs : List GbFeat) (lines : List Str) (hacc : printFeaturesE fs = .ok lines)
+    (hl : ∀ f ∈ fs, f.locs ≠ [] ∧ ∀ l ∈ f.locs, Expressible l) (hnd : ∀ f ∈ fs, (f.quals.map (·.1)).Nodup) :
+    parseFeatures lines = .ok fs :=
+  feature_roundtrip_accepted fs lines hacc hl hnd
+
+/-- … and what cannot be expressed is **refused** (`ValueError`, nothing written): a key that is
+empty, longer than 15 characters or has blanks at its ends, a qualifier key with whitespace / `=` /
+`"`, a value containing `"`. -/
+theorem C12_feature_rejects (fs : List GbFeat) (h : ∃ f ∈ fs, featCheck f = false) :
+    printFeaturesE fs = .error .valueError :=
+  printFeaturesE_rejects fs h
 
 /-- the column constants the line model uses are those of the current source -/
 theorem C12_gen_feature_columns :
@@ -333,11 +371,10 @@ example : (createLine Gen.C12.notQuoted ⟨"chr 1".toList, "a;b".toList, "t%41".
 
 example : quoteV Gen.C12.notQuoted "x  ".toList = "x %20".toList := by decide
 
-example : GbNameOk " Source ".toList ∧ GbContentOk "ORIGIN".toList ["        1 acgt".toList] := by
-  refine ⟨by unfold GbNameOk; decide, ?_⟩
-  intro _ c hc
-  simp only [List.mem_singleton] at hc
-  subst hc; right; decide
+example : gbToLines "AVERYLONGFIELDNAME".toList ["x".toList] [] = .error .valueError ∧
+    gbToLines "//x".toList ["x".toList] [] = .error .valueError ∧
+    gbToLines "ORIGIN".toList ["gene 1..5".toList] [] = .error .valueError ∧
+    gbToLines " Source ".toList ["x".toList] [] = .ok ["SOURCE      x".toList] := by decide
 
 example : (gbAppend Gb.empty "locus".toList ["x".toList] []).map (fun g => (g.lines.map String.ofList, g.pos.map (fun p => (p.1, p.2.1, String.ofList p.2.2)))) =
     .ok (["LOCUS       x", "//"], [(0, 1, "LOCUS")]) := by decide
@@ -353,6 +390,10 @@ example : printFeatures [⟨"CDS".toList, [⟨5, 9, true, { bl := true }⟩], [(
      "                     /note=\" a=/b\"".toList, "                     /note=\"c\"".toList] := by decide
 
 example : (printOrigin (-5) "ACGTACGTACGT".toList).map String.ofList = ["       -5 acgtacgtac gt"] := by decide
+
+example : featCheck ⟨"gene".toList, [], [("a b".toList, none)]⟩ = false ∧ featCheck ⟨"averyveryverylongkey".toList, [], []⟩ = false ∧
+    featCheck ⟨"gene".toList, [], [("note".toList, some "a\"b".toList)]⟩ = false ∧
+    featCheck ⟨"a-15-char-key__".toList, [], [("db/xref".toList, some " x=/y ".toList), ("".toList, none)]⟩ = true := by decide
 
 example : (∀ c ∈ lower "ACGTN*acgt".toList, OSymOk c) ∧ QKeyOk "db/xref".toList ∧ QValOk " a=/b ".toList := by
   unfold OSymOk QKeyOk QValOk; decide
